@@ -58,6 +58,7 @@ def run_check(tier, seed):
             extra.append(S.make_case(rng, 0, q['bytes'], q['fs'], q, cap=cap))
     extra += S.gen_config_cases(rng, 0)
     extra += S.gen_virtio_seg_cases(rng, 0)
+    extra += S.gen_direrr_cases(rng, 0, transports=('fusedev', 'virtio', 'chan'))
     extra += S.gen_badname_cases(rng, 0, transports=('fusedev', 'virtio', 'chan'))
     for i, c in enumerate(extra): c['id'] = n + i
     cases += extra
